@@ -191,8 +191,16 @@ class TypeInfo:
                 extras['locals'].setdefault(tn, tp)
             else:
                 tn = f'{prefix}{name}_{self.field_i}'
+                _locals = extras['locals']
+                # two different types can share a `__name__` within a
+                # field, e.g. `tuple[a.Color, b.Color]`
+                if _locals.get(tn, tp) is not tp:
+                    n = 2
+                    while _locals.get(f'{tn}_{n}', tp) is not tp:
+                        n += 1
+                    tn = f'{tn}_{n}'
                 LOG.debug(f'Adding %s=%s', tn, name)
-                extras['locals'][tn] = tp
+                _locals[tn] = tp
 
             return tn
 
